@@ -13,7 +13,7 @@ reg(
     "C09",
     "DESIGN.md section 4 C09",
     "property-based testing (Hypothesis): generated poses vs independent Hamilton-product/homogeneous-matrix reference model, group-law oracles",
-    "Generated-input search: >=4e4 (quick) / >=1.6e6 (thorough) drawn cases over all four pose types, covering w<0, w=0, 180-degree rotations, "
+    "Generated-input search: >=8e4 (quick) / >=1.6e6 (thorough) drawn cases over all four pose types, covering w<0, w=0, 180-degree rotations, "
     "angles on both sides of +-pi, translations up to 1e6 and boxplus increments up to the unit radius; every group law (matrix product, "
     "ominus definition, two-sided inverse/identity, associativity, point action, boxplus, += rebinding, result types) is compared with an "
     "independently written model at 1e-11*(1+S)/1e-12. No counterexample among the explored cases; PBT cannot prove absence.",
@@ -26,7 +26,7 @@ reg(
     "property-based testing (Hypothesis): generated edges; analytic Jacobian vs forward-mode AD of an independent reference model and vs Richardson central differences of the edge's own error",
     "Generated-input search over all 8 edge kinds with operands from all sign/quaternion/angle/scale classes (w<0, w=0, |w| tiny, theta at +-pi, "
     "S up to 1e6, rotated offsets): every Jacobian entry for both vertices is compared with an exact AD derivative of an independently "
-    "written error model (1e-11) and with extrapolated central differences of calc_error itself (1e-8). 3.2e4 (quick) / 9.6e5 (thorough) edges. "
+    "written error model (1e-11) and with extrapolated central differences of calc_error itself (1e-8). 6.4e4 (quick) / 9.6e5 (thorough) edges. "
     "History sub-check: Jacobians requested before any other query and again after the vertices moved to a second state (incl. the same pose as -q / theta+2pi), with arbitrary fixed flags. Sampling, not proof.",
     TRUSTED + "SE(2) angular-error wrap and a possible SE(3) error sign flip are handled by comparing modulo the wrap/sign.",
 )
@@ -181,7 +181,7 @@ reg(
     "C18",
     "DESIGN.md section 4 C18",
     "exhaustive enumeration of the finite product (itertools.product, sharded over 16 workers) against a validity predicate written from the documentation, plus Hypothesis-generated graphs for id binding under arbitrary list order / ids",
-    "Exhaustive on every run: all 183,960 combinations of edge kind x vertex count x endpoint pose types x measurement type x offset type x information shape x id presence are "
+    "Exhaustive on every run: all 199,080 combinations (each near miss and each consistent one also over fixed vertices) of edge kind x vertex count x endpoint pose types x measurement type x offset type x information shape x id presence are "
     "constructed through Graph(); construction raises iff the documented validity predicate is false, accepted edges are bound to the listed vertex objects and have a finite chi2. "
     "Generated part: edges are bound by id irrespective of list order for negative / sparse / > 2^63 ids; an unknown id is rejected. Found and repaired defect F7.",
     TRUSTED + "Validity is an assert (python -O out of scope). The landmark pairing clause (SE2->R2, SE3->R3, R2->R2, R3->R3) is the only clause beyond the two docstring sentences; it has its own signature.",
